@@ -9,11 +9,11 @@ use wtransport_proto::frame::Frame;
 use wtransport_proto::stream_header::StreamKind;
 use wtransport_proto::varint::VarInt;
 
-/// one scripted event of an incoming H3 stream
-#[derive(Clone, Copy)]
+/// one scripted event of an incoming H3 stream. Frames are built BY THE HARNESS (payload allocated there with a
+/// concrete size): allocating the payload inside the model under a merged length gave CBMC a merged pointer and a
+/// spurious counterexample on a fully concrete input (DESIGN §11.2)
 pub enum Ev {
-    /// a frame: kind selector (0 DATA, 1 HEADERS, 2 SETTINGS, 3 GREASE 0x21), payload = bytes[..len]
-    Frame { kind: u8, bytes: [u8; PAYLOAD_MAX], len: usize },
+    Frame(Frame<'static>),
     H3(ErrorCode),
     ImmediateFin,
     UnexpectedFin,
@@ -21,11 +21,10 @@ pub enum Ev {
     NotConnected,
 }
 
-pub const PAYLOAD_MAX: usize = 12;
 pub const SCRIPT_MAX: usize = 3;
 
 pub struct Script {
-    pub events: [Ev; SCRIPT_MAX],
+    pub events: [Option<Ev>; SCRIPT_MAX],
     pub n: usize,
     pub reads: usize,
 }
@@ -38,42 +37,66 @@ impl Script {
             // script exhausted: the connection goes away (concrete end of every script)
             return Err(ProtoReadError::IO(IoReadError::NotConnected));
         }
-        match self.events[i] {
-            Ev::Frame { kind, bytes, len } => {
-                let payload = vec_of(&bytes, len);
-                Ok(match kind {
-                    0 => Frame::new_data(Cow::Owned(payload)),
-                    1 => Frame::new_headers(Cow::Owned(payload)),
-                    2 => Frame::new_settings(Cow::Owned(payload)),
-                    _ => Frame::new_exercise(VarInt::from_u32(0x21), Cow::Owned(payload)),
-                })
-            }
-            Ev::H3(code) => Err(ProtoReadError::H3(code)),
-            Ev::ImmediateFin => Err(ProtoReadError::IO(IoReadError::ImmediateFin)),
-            Ev::UnexpectedFin => Err(ProtoReadError::IO(IoReadError::UnexpectedFin)),
-            Ev::Reset => Err(ProtoReadError::IO(IoReadError::Reset)),
-            Ev::NotConnected => Err(ProtoReadError::IO(IoReadError::NotConnected)),
+        match self.events[i].take() {
+            Some(Ev::Frame(f)) => Ok(f),
+            Some(Ev::H3(code)) => Err(ProtoReadError::H3(code)),
+            Some(Ev::ImmediateFin) => Err(ProtoReadError::IO(IoReadError::ImmediateFin)),
+            Some(Ev::UnexpectedFin) => Err(ProtoReadError::IO(IoReadError::UnexpectedFin)),
+            Some(Ev::Reset) => Err(ProtoReadError::IO(IoReadError::Reset)),
+            Some(Ev::NotConnected) | None => Err(ProtoReadError::IO(IoReadError::NotConnected)),
         }
     }
 }
 
-/// `bytes[..len].to_vec()` with one allocation site per length, so that every allocation has a concrete size
-/// (a symbolic-size copy is what exhausts CBMC's memory, DESIGN §3)
-fn vec_of(bytes: &[u8; PAYLOAD_MAX], len: usize) -> Vec<u8> {
-    match len {
-        0 => Vec::new(),
-        1 => bytes[..1].to_vec(),
-        2 => bytes[..2].to_vec(),
-        3 => bytes[..3].to_vec(),
-        4 => bytes[..4].to_vec(),
-        5 => bytes[..5].to_vec(),
-        6 => bytes[..6].to_vec(),
-        7 => bytes[..7].to_vec(),
-        8 => bytes[..8].to_vec(),
-        9 => bytes[..9].to_vec(),
-        10 => bytes[..10].to_vec(),
-        11 => bytes[..11].to_vec(),
-        _ => bytes[..].to_vec(),
+/// one scripted event of the peer's control stream, with STATIC payloads (no allocation, no array copies): the
+/// control-stream runner harnesses need nothing else and are an order of magnitude cheaper this way
+#[derive(Clone, Copy, PartialEq, Eq)]
+pub enum CEv {
+    /// SETTINGS {0x33: 1}
+    SettingsOk,
+    /// SETTINGS {}
+    SettingsEmpty,
+    /// SETTINGS with the reserved identifier 0x02
+    SettingsReserved,
+    Grease,
+    Data,
+    Headers,
+    ImmediateFin,
+    UnexpectedFin,
+    Reset,
+    NotConnected,
+    H3FrameUnexpected,
+}
+
+pub struct ControlScript {
+    pub events: [CEv; SCRIPT_MAX],
+    pub n: usize,
+    pub reads: usize,
+}
+
+impl ControlScript {
+    pub fn next<'a>(&mut self) -> Result<Frame<'a>, ProtoReadError> {
+        let i = self.reads;
+        self.reads += 1;
+        if i >= self.n {
+            return Err(ProtoReadError::IO(IoReadError::NotConnected));
+        }
+        const S_OK: &[u8] = &[0x33, 0x01];
+        const S_RESERVED: &[u8] = &[0x02, 0x00];
+        const EMPTY: &[u8] = &[];
+        match self.events[i] {
+            CEv::SettingsOk => Ok(Frame::new_settings(Cow::Borrowed(S_OK))),
+            CEv::SettingsEmpty => Ok(Frame::new_settings(Cow::Borrowed(EMPTY))),
+            CEv::SettingsReserved => Ok(Frame::new_settings(Cow::Borrowed(S_RESERVED))),
+            CEv::Grease => Ok(Frame::new_exercise(VarInt::from_u32(0x21), Cow::Borrowed(EMPTY))),
+            CEv::Data => Ok(Frame::new_data(Cow::Borrowed(EMPTY))),
+            CEv::Headers => Ok(Frame::new_headers(Cow::Borrowed(EMPTY))),
+            CEv::ImmediateFin => Err(ProtoReadError::IO(IoReadError::ImmediateFin)),
+            CEv::UnexpectedFin => Err(ProtoReadError::IO(IoReadError::UnexpectedFin)),
+            CEv::Reset => Err(ProtoReadError::IO(IoReadError::Reset)),
+            CEv::NotConnected => Err(ProtoReadError::IO(IoReadError::NotConnected)),
+            CEv::H3FrameUnexpected => Err(ProtoReadError::H3(ErrorCode::FrameUnexpected)),
+        }
     }
 }
 
@@ -140,14 +163,14 @@ pub mod uniremote {
 
     /// model of `driver::streams::uniremote::StreamUniRemoteH3` (a peer-opened unidirectional H3 stream)
     pub struct StreamUniRemoteH3 {
-        pub script: Script,
+        pub script: ControlScript,
         /// 0 Control, 1 QPackEncoder, 2 QPackDecoder, 3 GREASE (Exercise 0x21)
         pub kind: u8,
         pub recv: ModelRecv,
     }
 
     impl StreamUniRemoteH3 {
-        pub fn control(script: Script) -> Self {
+        pub fn control(script: ControlScript) -> Self {
             Self { script, kind: 0, recv: ModelRecv { oks: 0, end: 1, reset_code: VarInt::from_u32(0), reads: 0 } }
         }
 
@@ -251,7 +274,7 @@ pub mod biremote {
 
         pub fn into_session(self, _session_request: SessionRequest) -> StreamSession {
             StreamSession {
-                script: Script { events: [Ev::NotConnected; SCRIPT_MAX], n: 0, reads: 0 },
+                script: Script { events: [None, None, None], n: 0, reads: 0 },
                 reset_log: self.reset_log,
                 stop_log: self.stop_log,
             }
